@@ -149,6 +149,46 @@ func C02(r *eng.Run) {
 	})
 	r.Phase("A2 small integers", t0, nil)
 
+	// A2b: steering the dropped digits: A * (10^j + 1) keeps A's low j digits as the dropped tail of the product, and
+	// A / 2^-j = A * 2^j is an exact quotient with up to four extra digits; A = full-precision shape with its low
+	// digits replaced by every sticky-tail pattern
+	t0 = time.Now()
+	var fullK []*big.Int
+	for _, s := range shapes {
+		if ref.NumDigits(s) >= 33 {
+			fullK = append(fullK, s)
+		}
+	}
+	tails := stickyTails(5)
+	r.Bounds["steering_tails"] = len(tails)
+	r.Par(len(fullK), func(w *eng.W, i int) {
+		cl := &rcells{samp: map[int]string{}}
+		K := fullK[i]
+		for _, tl := range tails {
+			t := ref.NumDigits(tl)
+			for _, parity := range []int64{0, 1} {
+				// low t+1 digits of A: one kept digit of the chosen parity, then the tail
+				mod := ref.Pow10(t + 1)
+				A := new(big.Int).Sub(K, new(big.Int).Mod(K, mod))
+				A.Add(A, new(big.Int).Mul(big.NewInt(4+parity), ref.Pow10(t)))
+				A.Add(A, tl)
+				if A.Cmp(ref.Cmax) > 0 || A.Sign() <= 0 {
+					continue
+				}
+				for j := 1; j <= 5; j++ {
+					mulQuoPair(w, cl, A, 0, new(big.Int).Add(ref.Pow10(j), big.NewInt(1)), 0, []arithOp{opMul})
+				}
+				for j := 1; j <= 13; j++ {
+					// 2^-j = 5^j * 10^-j
+					mulQuoPair(w, cl, A, 0, new(big.Int).Exp(big.NewInt(5), big.NewInt(int64(j)), nil), -j, []arithOp{opQuo})
+					mulQuoPair(w, cl, A, 0, new(big.Int).Lsh(big.NewInt(1), uint(j)), 0, []arithOp{opMul})
+				}
+			}
+		}
+		cl.flush(w)
+	})
+	r.Phase("A2b dropped-digit steering", t0, nil)
+
 	// A3: long-division shapes
 	t0 = time.Now()
 	divs := divisorShapes()
